@@ -100,13 +100,19 @@ def optNat : Option Nat → String
 
 /-- one cell as tokens:
 `C idx vol cSum(3) maxR2 consumed nplanes failed bruteSame feasible  NF {F plane right shift valid areaN NN centSum(3) n(3) d}  NV {x y z}` -/
-def cellStr (t : TessIn) (o : CellOut) (withVerts : Bool) : String :=
+def cellStr (t : TessIn) (o : CellOut) (withVerts : Bool) (withM2 : Bool := false) : String :=
   let c := o.cell
   let hdr := s!"C {c.idx} {ratStr o.vol} {q3Str o.centSum} {ratStr c.maxR2} {o.consumed} {c.planes.size} {c.failed.getD "ok"} {o.bruteSame} {o.feasible}"
   let fs := o.faces.map fun f =>
     let p := c.planes[f.plane]!
     s!"F {f.plane} {optNat p.right} {shiftStr p.shift} {Decomp.vectorIsValid t.dim p.n} {ratStr f.areaN} {ratStr (V3.norm2 p.n)} {q3Str f.cent} {q3Str p.n} {ratStr p.d}"
   let vs := if withVerts then c.verts.toList.map (fun v => q3Str v.loc) else []
-  hdr ++ s!" NF {fs.length} " ++ " ".intercalate fs ++ s!" NV {vs.length} " ++ " ".intercalate vs
+  let m2 :=
+    if withM2 then
+      let z : Array Rat := #[0, 0, 0, 0, 0, 0]
+      let acc := (Decomp.tets c).foldl (fun (a : Array Rat) tt => (a.zip (Decomp.tetMoment2 c.loc tt)).map (fun (x, y) => x + y)) z
+      " M2 " ++ " ".intercalate (acc.toList.map ratStr)
+    else ""
+  hdr ++ s!" NF {fs.length} " ++ " ".intercalate fs ++ s!" NV {vs.length} " ++ " ".intercalate vs ++ m2
 
 end MVoro.Oracle
